@@ -883,6 +883,12 @@ impl PaZipCompressor {
     fn calculate_global_match_cost(&self, global_match: crate::compression::dict_zip::matcher::Match) -> Result<Option<(CompressionStrategy, CostAnalysis)>> {
         // Global matches always use Global compression type
         let compression_type = CompressionType::Global;
+
+        // The frame stores the dictionary position in 16 bits (apply_compression_strategy /
+        // decompress_match): a position beyond that would silently wrap, so it is not a candidate
+        if global_match.dict_position > u16::MAX as usize {
+            return Ok(None);
+        }
         
         // Create match for encoding cost calculation
         let temp_match = Match::Global {
